@@ -146,7 +146,9 @@ func VH_C07_disabled() {
 // Invariant I: len(active) >= 1 after any Add; tracked && age < len(active)-pos ... is too
 // history dependent, so the step is phrased on set membership directly:
 //
-//	(A) Add(x) refuses iff h(x) in active ∪ archive (pre-state)
+//	(A) Add(x) refuses only if h(x) in active ∪ archive (pre-state), and refuses if h(x) in active, or in
+//	    archive while len(active) < capacity (the promise is the most recent `capacity` checks: what lies
+//	    further back may be refused or not)
 //	(B) after Add(x): h(x) in active'
 //	(C) every y in active is in active' ∪ archive'  (nothing remembered in the current generation is lost by one Add)
 //	(D) len(active') <= max(len(active)+1, 1) and (rotation iff len(active) >= capacity) and after rotation archive' == active
@@ -165,7 +167,12 @@ func VH_C07_step_NR() {
 	_, xInArchive := c.archive[x]
 	_, yInActive := c.active[y]
 	ok := c.Add("", salt)
-	verifAssert("C07.step.refuse-iff-remembered", ok == !verifAny(xInActive, xInArchive))
+	// refused only if remembered (a checksum collision with a remembered handshake at worst) ...
+	verifAssert("C07.step.refused-only-if-remembered", verifImplies(!ok, verifAny(xInActive, xInArchive)))
+	// ... and refused whenever it can be among the most recent `capacity` checks: it is in the
+	// current generation, or in the previous one while the current one is not yet full (a full
+	// current generation alone spans `capacity` checks or more, all of them later)
+	verifAssert("C07.step.refused-if-within-the-window", verifImplies(verifAny(xInActive, verifAll(xInArchive, lenActive < capacity)), !ok))
 	_, xNow := c.active[x]
 	verifAssert("C07.step.added-to-active", xNow)
 	_, yAct := c.active[y]
@@ -223,7 +230,13 @@ func VH_C07_concurrent() {
 func VH_C07_concurrent_rotation() {
 	verifSched(1)
 	for rep := 0; rep < verifRepeat(150000); rep++ {
-		c := NewReplayCache(1 + verifChoice("cap", 2))
+		// (history 2 or 3: with one unrelated handshake in between, every later copy is within the
+		// most recent `capacity` checks of the one before it)
+		c := NewReplayCache(2 + verifChoice("cap", 2))
+		c.Add("a", []byte{9, 9, 9, 9})
+		if verifFlag("prefill-two") {
+			c.Add("a", []byte{8, 8, 8, 8})
+		}
 		x, y := []byte{1, 2, 3, 4}, []byte{5, 6, 7, 8}
 		k := 2
 		if verifNative() {
